@@ -64,25 +64,37 @@ class Scratch:
         p = sh(["go", "build", "./..."], cwd=REPO, check=False)
         if p.returncode != 0:
             raise Inconclusive("repository working tree does not compile:\n" + p.stdout[-3000:])
-        args = [exe, "-src", REPO, "-dst", self.dir, "-tools", TOOLS]
-        if noshim:
-            args.append("-noshim")
-        sh(args)
+        base = [exe, "-src", REPO, "-tools", TOOLS]
         self.harness = os.path.join(self.dir, "harness.bin")
-        build = ["go", "build"] + (["-race"] if race else []) + (["-tags", "noaccess"] if noshim else []) + ["-o", self.harness, "./zzverif/harness"]
-        p = sh(build, cwd=self.dir, check=False)
-        if p.returncode != 0 and not noshim:
-            first_err = p.stdout
-            # degrade: rebuild without the in-package access files
-            shutil.rmtree(self.dir)
-            os.makedirs(self.dir)
-            sh(args + ["-pins=false"])
-            p = sh(["go", "build"] + (["-race"] if race else []) + ["-tags", "noaccess", "-o", self.harness, "./zzverif/harness"], cwd=self.dir, check=False)
+        feats = {"pins": True, "cpins": True, "phys": True, "project": True}
+        if noshim:
+            sh(base + ["-dst", self.dir, "-noshim"])
+            p = sh(["go", "build"] + (["-race"] if race else []) + ["-tags", "nopins nocpins nophys noproject", "-o", self.harness, "./zzverif/harness"], cwd=self.dir, check=False)
             if p.returncode != 0:
-                raise Inconclusive("harness does not build against the working tree:\n" + first_err[-2000:] + "\n--- without access files:\n" + p.stdout[-2000:])
-            self.access = False
-        elif p.returncode != 0:
-            raise Inconclusive("harness does not build:\n" + p.stdout[-3000:])
+                raise Inconclusive("harness does not build:\n" + p.stdout[-3000:])
+            feats = {"pins": False, "cpins": False, "phys": False, "project": False}
+        else:
+            # the in-package access files are independent features: when one no longer compiles against a refactored tree it is
+            # dropped (degraded check, SPEC-DRIFT), the others and every API-level check keep running
+            first_err = None
+            for attempt in range(4):
+                shutil.rmtree(self.dir, ignore_errors=True)
+                os.makedirs(self.dir)
+                sh(base + ["-dst", self.dir] + ["-%s=%s" % (k, "true" if v else "false") for k, v in feats.items()])
+                tags = " ".join("no" + k for k, v in feats.items() if not v)
+                p = sh(["go", "build"] + (["-race"] if race else []) + (["-tags", tags] if tags else []) + ["-o", self.harness, "./zzverif/harness"], cwd=self.dir, check=False)
+                if p.returncode == 0:
+                    break
+                first_err = first_err or p.stdout
+                hit = [k for k in feats if feats[k] and ("zz_verif_%s_" % k) in p.stdout]
+                if not hit:
+                    hit = [k for k in feats if feats[k]]      # unknown cause: drop everything that is left
+                for k in hit:
+                    feats[k] = False
+            else:
+                raise Inconclusive("harness does not build against the working tree:\n" + (first_err or "")[-3000:])
+        self.features = feats
+        self.access = all(feats.values())
         self.info = json.loads(sh([self.harness, "info"], cwd=self.dir).stdout)
 
     def run(self, cmd, inp=None, out=None, stats=None, extra=(), timeout=1800, env=None, check=True):
